@@ -10,6 +10,7 @@ import asyncio
 import itertools
 import os
 import signal
+import sys
 
 from .. import core, harness, probes, vloop
 
@@ -117,7 +118,6 @@ def run_case(case, ctx):
                 objs[i] = edzed.Repeat(f"e{i}", dest=cnt, etype='put', interval=1000, count=0)
             elif kind == 'EI':
                 def failing(value, i=i):
-                    fired.append(('E', i))
                     raise SrcError(f"EI{i}")
                 edzed.OutputFunc(f"e{i}", func=failing, on_error=edzed.Event.abort())
                 objs[i] = edzed.Input(f"eii{i}", initdef=0, on_output=edzed.Event(f"e{i}"))
@@ -204,16 +204,11 @@ def run_case(case, ctx):
                 edzed.ExtEvent(objs[i], 'boom').send()
             elif kind in ('C', 'Z', 'ZC'):
                 edzed.ExtEvent(objs[i]).send(1)
-            elif kind == 'E':
-                fired.append(('E', i))
-                edzed.ExtEvent(objs[i]).send(1)
-            elif kind == 'EC':
-                fired.append(('E', i))
+            elif kind in ('E', 'EC'):
                 edzed.ExtEvent(objs[i]).send(1)
             elif kind == 'HC':
                 edzed.ExtEvent(objs[i]).send(1)
             elif kind == 'HN':
-                fired.append(('E', i))
                 edzed.ExtEvent(objs[i], 'put').send()      # no 'value'
             elif kind == 'A':
                 exc = SrcError(f"A{i}")
@@ -238,6 +233,15 @@ def run_case(case, ctx):
         def abort(exc):
             if isinstance(exc, asyncio.CancelledError):
                 fired.append(('cancel', len(fired)))
+            else:
+                # errors reported through events / failing handlers of library blocks: logged
+                # at the moment they reach the simulator, not when the harness triggered them
+                # (a combinational block in between acts only when the simulator runs it)
+                for i, (kind, _t) in enumerate(actions):
+                    if kind in ('E', 'EC', 'EI', 'HN') and f"'e{i}'" in str(exc) \
+                            and ('E', i) not in fired:
+                        fired.append(('E', i))
+                        break
             return orig_abort(exc)
         circuit.abort = abort
         if case.get('harmless') == 'restore_fail':
@@ -274,6 +278,10 @@ def run_case(case, ctx):
                 elif kind == 'K':
                     def cancel_run(i=i):
                         fired.append(('K', i))
+                        if mode == 'N':
+                            # the task running run() IS the simulation task: this is the
+                            # delivery of the cancellation
+                            fired.append(('cancel', len(fired)))
                         runtask_getter().cancel()
                     loop.call_at(when, cancel_run)
                 elif kind == 'T':
@@ -388,7 +396,23 @@ def run_case(case, ctx):
             res['shutdown_results'] = shutdown_results
             res['end_time'] = loop.time() - t0
 
-    loop, _, exc = vloop.run(main)
+    def setup(loop):
+        lat = case.get('latency')
+        if lat:
+            lrng = ctx.rng('lat', core.case_hash(case))
+            loop.latency = lambda: lrng.random() * lat
+    def fallback(_signo, _frame):
+        # SIGTERM sent while edzed's own handler is not installed (run() restores the previous
+        # handler before it awaits the end of the clean-up): must not kill the worker
+        caller = sys._getframe(1).f_code
+        if not (caller.co_name == '_handler' and '/edzed/' in caller.co_filename):
+            hist.log('sigterm_unhandled')
+            res['sigterm_unhandled'] = True
+    old_handler = signal.signal(signal.SIGTERM, fallback)
+    try:
+        loop, _, exc = vloop.run(main, setup=setup)
+    finally:
+        signal.signal(signal.SIGTERM, old_handler)
     edzed.reset_circuit()
     if exc is not None and not isinstance(exc, vloop.Deadlock):
         raise exc
@@ -489,6 +513,13 @@ def judge(case, res, fired, excs, hist, ctx):
     else:
         ctx.count('run_mode_cases')
         run_exc = res.get('run_exc')
+        if res.get('sigterm_unhandled'):
+            # (the harness ends with run(), so every SIGTERM of a case is sent while run() is
+            # active - incl. its wait for the end of the clean-up)
+            raise core.Violation(
+                'sigterm-not-caught-while-run-is-active',
+                f"{where}: a SIGTERM found no edzed handler installed although run() had not "
+                "returned yet (default action: the process dies at once)")
         if fired and 'end_time' in res:
             t_first = min(t for _k, t in case['actions'])
             if res['end_time'] > t_first + 4.0:
@@ -560,6 +591,13 @@ def gen(ctx):
     cases.append({'mode': 'N', 'actions': [['K', 1]]})
     cases.append({'mode': 'N', 'actions': [['T', 1]], 'slow_init': True})
     cases.append({'mode': 'N', 'actions': [['K', 7]], 'slow_init': True})
+    # the run() task (= the simulation task) is cancelled in the middle of the clean-up
+    for a in ('A', 'H', 'C', 'K'):
+        cases.append({'mode': 'N', 'actions': [[a, 1], ['K', 1.25]]})
+        cases.append({'mode': 'U', 'actions': [[a, 1], ['K', 1.25]]})
+        # ... and cancelled once more while run() awaits the end of that clean-up
+        cases.append({'mode': 'U', 'actions': [[a, 1], ['K', 1.125], ['K', 1.25]]})
+        cases.append({'mode': 'U', 'actions': [[a, 1], ['K', 1], ['K', 1.25]]})
     for k in ('X', 'A', 'Z'):
         cases.append({'mode': 'R', 'actions': [[k, 1]], 'slow_init': True})
     # abort requested from inside the simulation task during the synchronous initialisation
@@ -611,6 +649,43 @@ def gen(ctx):
             case['harmless'] = 'stop_fail'
         if i % ctx.nshards == ctx.shard:
             yield case
+    # random schedules: 1..4 sources of any kind, times from a small grid (ties are likely),
+    # wake-up latency injected into the virtual loop, optional slow initialisation
+    rng = ctx.rng('random')
+    nrand = 160 if ctx.tier == 'quick' else 400000
+    inner = ['Z', 'ZC', 'EC', 'HC', 'HN']
+    for i in range(nrand):
+        mode = rng.choice(['R', 'R', 'U', 'U', 'N'])
+        pool = FATAL_R + inner + (['S', 'R', 'K', 'T'] if mode == 'U' else
+                                  ['K', 'T'] if mode == 'N' else [])
+        actions = []
+        for _ in range(rng.randrange(1, 5)):
+            k = rng.choice(pool)
+            if k == 'S' and any(a[0] == 'S' for a in actions):
+                k = 'R'
+            actions.append([k, rng.choice([1, 1, 1.5, 2, 2, 2.5])])
+        if mode == 'N':
+            # (a cancellation of the simulation task itself and another source in the very
+            # same instant: which one the simulator sees first is not observable here)
+            for a in actions:
+                if a[0] == 'K':
+                    a[1] = rng.choice([1.25, 1.75, 2.25])
+        actions.sort(key=lambda a: a[1])
+        if rng.random() < 0.12:
+            actions.insert(0, [rng.choice(['B', 'BC', 'EI'] + (['I'] if mode == 'R' else [])), 0])
+        case = {'mode': mode, 'actions': actions}
+        r = rng.random()
+        if r < 0.3:
+            case['harmless'] = rng.choice(HARMLESS + ['stop_fail'])
+        if rng.random() < 0.2 and not any(
+                a[0] in ('I', 'B', 'BC', 'EI', 'C', 'ZC', 'EC', 'HC') for a in actions):
+            # (sources acting through a combinational block fire only when the simulation
+            # proper begins, i.e. after the initialisation)
+            case['slow_init'] = True
+        if rng.random() < 0.4:
+            case['latency'] = rng.choice([1e-4, 2e-3])
+        if i % ctx.nshards == ctx.shard:
+            yield case
 
 
 def run_one(case, ctx):
@@ -623,13 +698,12 @@ def run_one(case, ctx):
         return
     ctx.case_done(case, bool(fired), {'case': case, 'fired_in_order': fired,
                                       'reported': repr(res.get('error'))},
-                  enumerated=True)
+                  enumerated=bool(case.get('enum')))
 
 
 def run_shard(ctx):
     for case in gen(ctx):
         run_one(case, ctx)
-    ctx.exhaustive = True
 
 
 def replay(rep, ctx):
